@@ -315,9 +315,23 @@ Definition vt_osc (v : vt) (body : list byte) : vt :=
   | _ => flag_unknown v
   end.
 
+(* C0 format effectors in ground state: they move the cursor and place no glyph *)
+Definition vt_c0 (cfg : vtcfg) (v : vt) (b : byte) : vt :=
+  let x := fst (vcur v) in
+  let y := snd (vcur v) in
+  match b with
+  | 13 => set_pending (set_vcur v (0, y)) false                              (* CR *)
+  | 10 => set_pending (if y + 1 <? snd (vsize v) then set_vcur v (x, y + 1)
+                       else scroll_up cfg v) false                           (* LF *)
+  | 8 => set_pending (set_vcur v (x - 1, y)) false                           (* BS *)
+  | 9 => set_pending (set_vcur v (clampN ((x / 8 + 1) * 8) (fst (vsize v)), y)) false   (* HT *)
+  | _ => flag_malformed v
+  end.
+
 (* a byte of text arriving in ground state *)
 Definition vt_text (cfg : vtcfg) (v : vt) (b : byte) : vt :=
-  if utf8 v then
+  if b <? 32 then vt_c0 cfg v b
+  else if utf8 v then
     let sh := if unicode_all cfg || cs_eqb (g0cs v) CsAscii then ShownUtf8 else Garbled in
     if (32 <=? b) && (b <=? 126) then put_glyph cfg v [b] sh
     else if (194 <=? b) && (b <=? 223) then set_lex v (LUtf8 false [b])
